@@ -42,7 +42,8 @@ SCOPE = {
              "reflexive links; over declared types and over sub-types); every pair of coreLang associations that can "
              "link one and the same pair of assets; + 8000 seeded random models of <=3 assets, <=3 links, <=2 attackers; each model is "
              "ingested, read back under a seeded row order, and its generated attack graph (optionally with attackers "
-             "attached, non-viable flags, extra/duplicate edges) is ingested",
+             "attached, non-viable flags, extra/duplicate edges, and 0-2 nodes removed with remove_node() first so that node ids "
+             "are not list positions) is ingested",
     "thorough": "same enumerated part; 60000 random models of <=4 assets, <=4 links, 3 row orders each",
 }
 EXHAUSTIVE = {"quick": False, "thorough": False}
@@ -63,11 +64,14 @@ CHUNK = 100
 URI, USER, PW, DB = "bolt://stub:7687", "u", "p", "db"
 
 
-def _ag(rnd):
+def _ag(rnd, remove=None):
+    """attack-graph part of a recipe; `remove`: positions of nodes taken out with remove_node() before the export (the ids
+    of the remaining nodes are then no longer their positions in graph.nodes)"""
     if rnd is None:
-        return {"attach": True, "unviable": [1], "extra": [[0, 1], [0, 1], [2, 2]]}
+        return {"attach": True, "unviable": [1], "extra": [[0, 1], [0, 1], [2, 2]], "remove": remove or []}
     return {"attach": rnd.random() < 0.6, "unviable": [rnd.randrange(50) for _ in range(rnd.randint(0, 2))],
-            "extra": [[rnd.randrange(50), rnd.randrange(50)] for _ in range(rnd.randint(0, 3))] * rnd.choice([1, 1, 2])}
+            "extra": [[rnd.randrange(50), rnd.randrange(50)] for _ in range(rnd.randint(0, 3))] * rnd.choice([1, 1, 2]),
+            "remove": [rnd.randrange(50) for _ in range(rnd.choice([0, 0, 1, 2]))]}
 
 
 def cases(tier, seed):
@@ -82,7 +86,7 @@ def cases(tier, seed):
                     k += 1
                     yield {"lang": lang, "assets": [[tl, "l", 1, {}], [tr, "r", 2, {}]],
                            "links": [[a["cls"], a["lf"], [0], a["rf"], [1]]], "attackers": [],
-                           "db_seed": k, "delete": k % 2 == 0, "ag": _ag(None) if lang == "mini" else None}
+                           "db_seed": k, "delete": k % 2 == 0, "ag": _ag(None, remove=[0] if k % 3 == 0 else ([1, 3] if k % 3 == 1 else None)) if lang == "mini" else None}
                     if tl == tr:
                         k += 1
                         yield {"lang": lang, "assets": [[tl, "l", 1, {}]],
@@ -282,6 +286,13 @@ def run_case(recipe):
                     p, c = g.nodes[i % n], g.nodes[j % n]
                     p.children.append(c)
                     c.parents.append(p)
+                for i in recipe["ag"].get("remove", []):
+                    if len(g.nodes) > 2:
+                        try:
+                            g.remove_node(g.nodes[i % len(g.nodes)])
+                        except Exception:           # noqa: remove_node is the subject of C09 / C13
+                            pass
+                n = len(g.nodes)
                 edges = Counter((p.full_name, c.full_name) for p in g.nodes for c in p.children)
                 db2 = L.RecordingDB(recipe["db_seed"])
                 neo.Graph = L.make_graph_class(db2)
